@@ -79,3 +79,59 @@ def terms_up_to(depth, leaves, small_leaves, ops=tuple(OPS)):
                     nxt.append((op, b, a))
         levels.append(nxt)
     return levels
+
+
+PREC = {'interval': 1, 'add': 2, 'sub': 2, 'mul': 3, 'div': 3, 'mod': 3, 'neg': 4}
+
+
+def prec(t):
+    return PREC.get(t[0], 5)
+
+
+def tt_min(t):
+    """Minimal parentheses under the language's precedence (.. < + - < * / \\ < unary -; binary operators left-associative)."""
+    k = t[0]
+    if k in ('v', 's'):
+        return t[1]
+    if k == 'n':
+        return str(t[1])
+    if k == 'inf':
+        return '#inf'
+    if k == 'sup':
+        return '#sup'
+    if k == 'neg':
+        a = tt_min(t[1])
+        return '-%s' % (a if prec(t[1]) >= 5 else '(%s)' % a)
+    a, b = t[1], t[2]
+    sa = tt_min(a) if prec(a) >= prec(t) else '(%s)' % tt_min(a)
+    sb = tt_min(b) if prec(b) > prec(t) else '(%s)' % tt_min(b)
+    return '%s %s %s' % (sa, OPS[k], sb)
+
+
+def to_sexp(t):
+    """my term tuples -> the bridge's S-expression form"""
+    from .sexp import Q
+    k = t[0]
+    if k == 'v':
+        return ('var', Q(t[1]))
+    if k == 'n':
+        return ('pnum', str(t[1]))
+    if k == 's':
+        return ('psym', Q(t[1]))
+    if k == 'inf':
+        return ('pinf',)
+    if k == 'sup':
+        return ('psup',)
+    return (k,) + tuple(to_sexp(x) for x in t[1:])
+
+
+def random_term(rnd, depth, leaves):
+    if depth == 0 or rnd.random() < 0.2:
+        return rnd.choice(leaves)
+    k = rnd.choice(['add', 'sub', 'mul', 'div', 'mod', 'interval', 'neg', 'add', 'sub', 'mul'])
+    if k == 'neg':
+        a = random_term(rnd, depth - 1, leaves)
+        if a[0] == 'n':          # `-5` is a negative numeral token, not unary minus applied to 5: keep the two apart
+            a = ('v', 'X')
+        return ('neg', a)
+    return (k, random_term(rnd, depth - 1, leaves), random_term(rnd, depth - 1, leaves))
